@@ -62,8 +62,15 @@ CtxI(i, s) == CASE i = 1 -> <<s>>
                 [] i = 7 -> <<Cl(<<s>>)>>
 \* second layer of contexts (thorough): the statement list of a context becomes
 \* the body of another context; 0 = none
-NCtx2 == 7
+NCtx2 == 9
+\* try {} finally { x }
+TFf(x) == [k |-> "try", b |-> <<>>, hc |-> FALSE, c |-> <<>>, hf |-> TRUE, f |-> x]
 Ctx2I(j, b) == CASE j = 0 -> b
+                 \* the statements run in a function called from inside a finally block, and that try statement is nested in
+                 \* another try statement of the same function (with catch and finally / with finally only): an error leaving
+                 \* the called function meets a frame whose innermost handler is already in its finally block
+                 [] j = 8 -> <<[k |-> "try", b |-> <<TFf(<<Cl(b)>>)>>, hc |-> TRUE, c |-> <<>>, hf |-> TRUE, f |-> <<>>]>>
+                 [] j = 9 -> <<TF(<<TFf(<<Cl(b)>>), T0>>)>>
                  [] j = 1 -> <<T0>> \o b
                  [] j = 2 -> <<Lp(b)>>
                  [] j = 3 -> <<TF(b)>>
@@ -182,7 +189,7 @@ Frame(fn) == [fn |-> fn, ip |-> 1, hs |-> <<>>, iter |-> <<>>]
 Init ==
   \* d1: one layer of contexts, plus the second-layer context that declares a function literal inside a try body
   \* (the compile-time try depth of a function literal starts afresh); d2: every second-layer context
-  /\ prog \in S1 \X (1..NCtx) \X (IF Family = "d1" THEN {0, 6} ELSE 0..NCtx2)
+  /\ prog \in S1 \X (1..NCtx) \X (IF Family = "d1" THEN {0, 6, 8} ELSE 0..NCtx2)
   /\ phase = "load"
   /\ code = <<>> /\ frames = <<>> /\ log = <<>> /\ out = <<>> /\ expected = <<>>
   /\ disc = TRUE
